@@ -19,6 +19,7 @@ package window
 import (
 	"context"
 	"fmt"
+	"github.com/rulego/streamsql/utils/verifhook"
 	"log"
 	"reflect"
 	"sync"
@@ -604,12 +605,14 @@ func (sw *SlidingWindow) triggerSpecificWindowLocked(slot *types.TimeSlot) {
 
 	// Release lock before calling callback and sending to channel to avoid blocking
 	sw.mu.Unlock()
+	verifhook.Yield("sliding.trigger.unlocked")
 
 	if callback != nil {
 		callback(resultData)
 	}
 
 	sw.sendResult(resultData)
+	verifhook.Yield("sliding.trigger.relock")
 
 	// Re-acquire lock to update statistics
 	sw.mu.Lock()
